@@ -121,6 +121,21 @@ claim("C18", "exploration",
       "over the recorded processing order", "DESIGN.md 4 C18")
 
 
+claim("C20", "exploration",
+      "TinyRV0 programs generated against tinyrv0-isa.md with our own bit-level encoder (all ten instructions, few "
+      "registers to force hazards, forward branches, counted backward loops, loads/stores through base and computed "
+      "address registers, csr traffic to manager and accelerator, shifts by >= 32, writes to x0) run on ProcFL, ProcCL "
+      "and ProcRTL inside the repository's harness wiring (MagicMemoryCL, NullXcelRTL, adapters inserted by connect) "
+      "with our seeded-gap source, recording back-pressured sink, seeded memory stalls and latencies 1..6. Each level "
+      "must deliver exactly the proc2mngr sequence, consume exactly the mngr2proc words and leave exactly the data "
+      "window our ~60-line ISA interpreter computes, with the text section untouched, within a configuration-derived "
+      "cycle bound. Checksum: random/boundary 8x16-bit inputs through ChecksumFL/CL/RTL against a four-line spec.",
+      "Programs are terminating by construction and end by parking on csrr mngr2proc with an exhausted source; "
+      "unaligned accesses (undefined in the ISA) are never generated.",
+      "deterministic simulation of the composed system, seeded timing faults, ISA-interpreter oracle on the message "
+      "history and final memory image", "DESIGN.md 4 C20")
+
+
 def main():
   props = [json.loads(l)["id"] for l in open(os.path.join(VERIF, "properties.jsonl"))]
   checks = []
